@@ -512,6 +512,9 @@ def _timeline(value: DurationType) -> int:
     seconds = value.hour * DS_HOUR + value.minute * DS_MINUTE + value.second
     if isinstance(value, XmlDateTime):
         seconds += _days_from_civil(value.year, value.month, value.day) * DS_DAY
+    elif value.hour == 24:
+        # A time has no day to carry into, 24:00:00 is 00:00:00
+        seconds -= 24 * DS_HOUR
 
     seconds += (value.offset or 0) * DS_OFFSET
     return seconds * 1_000_000_000 + value.fractional_second
